@@ -46,7 +46,12 @@ impl SwarmDriver {
                                 channel: MsgResponder::FromPeer(channel),
                             });
 
-                            self.add_keys_to_replication_fetcher(holder, keys);
+                            // a replication list is only acted on when its holder field is the peer that sent it
+                            if holder.as_peer_id() == Some(peer) {
+                                self.add_keys_to_replication_fetcher(holder, keys);
+                            } else {
+                                warn!("Ignoring replication list sent by {peer:?} that claims {holder:?} as its holder");
+                            }
                         }
                         Request::Cmd(ant_protocol::messages::Cmd::PeerConsideredAsBad {
                             detected_by,
